@@ -4,6 +4,7 @@ import (
 	"context"
 	"encoding/hex"
 	"fmt"
+	"k8s.io/klog/v2"
 	"os"
 	"sort"
 	"strings"
@@ -135,6 +136,8 @@ type World struct {
 	doneRecs           int
 	probe              *clientState
 	Panics             []string
+	Fatals             []string // klog.Fatal calls of node code (the node crashed there)
+	OnFatal            func(node int, msg string)
 	FineClock          bool // never let the clock hop far while tasks may become eligible (electors)
 	YieldOnSetRevision bool // also yield when an unregistered goroutine (the elector\'s OnStartedLeading) sets the revision
 	inflight           map[string]*Rec
@@ -180,6 +183,21 @@ func InstallHooks(s *rt.Sched) {
 // UninstallHooks removes the hook functions.
 func UninstallHooks() {
 	verifhook.YieldFn, verifhook.PollFn, verifhook.NameFn = nil, nil, nil
+	klog.FatalHookForSim = nil
+}
+
+// onFatal: node code called klog.Fatal. A real node's process ends there; the simulated node
+// crashes (none of its tasks runs again) and the calling goroutine never returns.
+func (w *World) onFatal(msg string) {
+	node := w.S.NodeOfCaller()
+	msg = strings.TrimSpace(msg)
+	w.Fatals = append(w.Fatals, fmt.Sprintf("node %d: %s", node, msg))
+	w.S.Note("klog.Fatal on node %d: %s", node, msg)
+	w.S.CrashNode(node)
+	if w.OnFatal != nil {
+		w.OnFatal(node, msg)
+	}
+	select {}
 }
 
 // New builds the world of a scenario. Must run inside the bubble on the
@@ -206,6 +224,7 @@ func New(sc *Scenario) (*World, error) {
 	}
 	InstallHooks(s)
 	w := &World{Sc: sc, S: s, inflight: map[string]*Rec{}}
+	klog.FatalHookForSim = w.onFatal
 	inner, lazy, err := w.newEngine(sc.Engine)
 	if err != nil {
 		return nil, err
@@ -298,6 +317,13 @@ func (w *World) addNodeWithIdentity(identity string) *Node {
 	id := len(w.Nodes)
 	h := w.KV.Handle(id)
 	m := NewRecMetrics(RealMetrics)
+	m.BeforeEmit = func(name string) {
+		// the first statement of the elector's OnStartedLeading callback, which client-go starts on a
+		// goroutine of its own while the elector goes on to its first renewal: a scheduling point
+		if name == "leader.election.success" {
+			w.S.Yield("metric.leader.started")
+		}
+	}
 	var kv storage.KvStorage = h
 	if w.Sc.MetricsKV {
 		kv = kvmetrics.NewKvStorage(h, m)
